@@ -249,7 +249,11 @@ pub(crate) fn with_document_scope<R>(f: impl FnOnce() -> R) -> R {
         }
     }
     let guard = RestoreGuard(Some(saved));
+    // Likewise, errors of this document must not pick up a fallback location that belongs to
+    // the document being deserialized around it.
+    let fallback_guard = crate::de_error::MissingFieldLocationGuard::cleared();
     let result = f();
+    drop(fallback_guard);
     drop(guard);
     result
 }
